@@ -280,3 +280,12 @@ func ParseLnCol(s string) (line, col int, ok bool) {
 	_ = err
 	return 0, 0, false
 }
+
+// DiagText returns the text behind the "Ln x, Col y: " prefix.
+func DiagText(s string) string {
+	line, col, ok := ParseLnCol(s)
+	if !ok {
+		return ""
+	}
+	return s[len(fmt.Sprintf("Ln %d, Col %d: ", line, col)):]
+}
